@@ -8,6 +8,8 @@ EXTRA = {  # additional checks that are expected to see a change, besides the pr
     "C01-b": ["C09"], "C03-a": ["C20"], "C10-b": ["C09"], "C12-b": ["C15"],
     # changes written for a sequence-quantified property that only show under a thread interleaving are the
     # business of the schedule-quantified sibling (first use: C09, test scopes: C11); tag-map aliasing is C04's
+    "C03-3a": ["C01"], "C05-3a": ["C07"], "C10-3a": ["C09"], "C10-3b": ["C06", "C04"], "C09-3b": ["C05"], "C11-3b": ["C20"],
+    "C13-3a": ["C14"], "C16-3a": ["C12"], "C17-3a": ["C02"], "C17-3b": ["C20"], "C12-3b": ["C13"], "C08-3b": ["C07"], "C07-3b": ["C08"],
     "C03-2b": ["C09"], "C05-2b": ["C09"], "C10-2a": ["C11", "C09"], "C05-2a": ["C04"], "C06-2b": ["C04"], "C01-2b": ["C07"],
 }
 
